@@ -12,3 +12,11 @@ inline void seq_warmup() {
     done = true;
     seq_warm_coro().detach();
 }
+
+// A case that leaves the thread in coroutine mode (or with handles in the thread's ready queue) has been reported; the
+// thread-local state is put back so that the cases that follow in this process are judged on their own.
+static inline void seq_reset_thread_state() {
+    cocls::coro_queue::instance = nullptr;
+    cocls::coro_queue::queue_impl::instance._queue.clear();
+}
+
